@@ -4,7 +4,8 @@ import GoawkModel.Basic
 
 The interpreter state is a record of per-class components (the classes of `GoawkModel.C14Fields`):
 
-* `PerRun`  — NR, FNR, $0, RSTART, CSV header names, scanner position, exit status (cleared by `resetCore`)
+* `PerRun`  — NR, FNR, $0, RSTART, CSV header names, scanner position, exit status, the stream table (the `"-"` scanner
+  and whether Stdin was drained), the range-pattern flag (cleared by `resetCore`)
 * `FromCfg` — input mode, header flag, stdin, context flag (overwritten by `setExecuteConfig`)
 * `Vars`    — globals, one array, OFS, CONVFMT, FS and the FS saved with $0 (cleared only by `resetVars`)
 * `Rand`    — seed and number of draws (reset only by `resetRand`)
@@ -26,6 +27,7 @@ inductive Op
   | setNR (n : Nat)                  -- NR = n
   | setRec (v : String)              -- $0 = v
   | getline                          -- plain getline from the main input
+  | getDash                          -- getline g2 < "-"   (standard input through its own scanner, kept in the stream table)
   | matchOp (n : Nat)                -- match(...) so that RSTART = n
   | rx (k : String)                  -- a dynamic regex match (goes through the regex cache)
   | srand (n : Nat)                  -- srand(n)
@@ -62,6 +64,9 @@ structure PerRun where
   scannerOpen : Bool
   rest : List String
   exitStatus : Nat
+  rawTaken : Bool                    -- the Stdin reader has been drained into some scanner's buffer
+  dash : Option (List String)        -- stream table entry "-": unread records of that scanner (none = not open)
+  inRange : Bool                     -- the range-pattern rule is between its start and its stop record
   deriving Repr, DecidableEq
 
 structure FromCfg where
@@ -97,7 +102,7 @@ structure State where
   cache : List (String × String)
   deriving Repr
 
-def PerRun.init : PerRun := ⟨0, 0, "", 0, none, false, [], 0⟩
+def PerRun.init : PerRun := ⟨0, 0, "", 0, none, false, [], 0, false, none, false⟩
 def FromCfg.init : FromCfg := ⟨false, false, [], false⟩
 def Vars.init : Vars := ⟨["", "", ""], [], " ", "%.6g", " ", " "⟩
 def Rand.init : Rand := ⟨1, 0⟩
@@ -130,7 +135,9 @@ def setLine (c : Core) (l : String) : Core :=
 def openInput (c : Core) : Core :=
   if c.perRun.scannerOpen then c
   else
-    let c1 : Core := { c with perRun := { c.perRun with scannerOpen := true, rest := c.cfg.input } }
+    -- the first scanner that reads drains the whole (small) Stdin into its buffer; a second one sees end of input
+    let rest0 : List String := if c.perRun.rawTaken then [] else c.cfg.input
+    let c1 : Core := { c with perRun := { c.perRun with scannerOpen := true, rawTaken := true, rest := rest0 } }
     if c1.cfg.csv && c1.cfg.header then
       match c1.perRun.rest with
       | [] => c1
@@ -144,6 +151,34 @@ def readRecord (c : Core) : Core × Bool :=
   | [] => (c2, false)
   | l :: t =>
     (setLine { c2 with perRun := { c2.perRun with rest := t, nr := c2.perRun.nr + 1, fnr := c2.perRun.fnr + 1 } } l, true)
+
+/-- open the `"-"` scanner if it is not in the stream table yet (same splitter as the main input: header row in CSV
+header mode) -/
+def openDash (c : Core) : Core × List String :=
+  match c.perRun.dash with
+  | some ls => (c, ls)
+  | none =>
+    let ls0 := if c.perRun.rawTaken then [] else c.cfg.input
+    let c1 : Core := { c with perRun := { c.perRun with rawTaken := true } }
+    if c1.cfg.csv && c1.cfg.header then
+      match ls0 with
+      | [] => (c1, [])
+      | h :: t => ({ c1 with perRun := { c1.perRun with names := some (h.splitOn ",") } }, t)
+    else (c1, ls0)
+
+/-- `getline g2 < "-"` -/
+def getDash (c : Core) : Core :=
+  match openDash c with
+  | (c1, []) => { c1 with perRun := { c1.perRun with dash := some [] } }
+  | (c1, l :: t) => { c1 with perRun := { c1.perRun with dash := some t }, vars := { c1.vars with g := c1.vars.g.set 2 l } }
+
+/-- the rule `/^s/, /^e/ { print "R " NR }`, evaluated for every record before the per-record script (it reads $0 only,
+so it does not depend on FS or the input mode) -/
+def rangeRule (c : Core) : Core × List String :=
+  let h := c.perRun.line.toList.head?
+  let matched := c.perRun.inRange || h == some 's'
+  ({ c with perRun := { c.perRun with inRange := matched && !(h == some 'e') } },
+   if matched then ["R " ++ toString c.perRun.nr] else [])
 
 def lookupArr (a : List (String × String)) (k : String) : String :=
   match a.find? (·.1 == k) with
@@ -182,6 +217,7 @@ def stepCore (op : Op) (compiled : String) (c : Core) : Core × List String × C
   | .setNR n => ({ c with perRun := { c.perRun with nr := n } }, [], .cont)
   | .setRec v => (setLine c v, [], .cont)
   | .getline => ((readRecord c).1, [], .cont)
+  | .getDash => (getDash c, [], .cont)
   | .matchOp n => ({ c with perRun := { c.perRun with rstart := n } }, [], .cont)
   | .rx k => (c, ["rx " ++ (if compiled == compile k then "1" else "0")], .cont)
   | .srand n => ({ c with rand := ⟨n, 0⟩ }, [], .cont)
@@ -225,9 +261,9 @@ def mainLoop (m : List Op) : Nat → State → State × List String × Ctl
     match readRecord s.core with
     | (c, false) => (⟨c, s.cache⟩, [], .cont)
     | (c, true) =>
-      match runScript m ⟨c, s.cache⟩ with
-      | (s1, o1, .cont) => let r := mainLoop m fuel s1; (r.1, o1 ++ r.2.1, r.2.2)
-      | r => r
+      match runScript m ⟨(rangeRule c).1, s.cache⟩ with
+      | (s1, o1, .cont) => let r := mainLoop m fuel s1; (r.1, (rangeRule c).2 ++ o1 ++ r.2.1, r.2.2)
+      | (s1, o1, ctl) => (s1, (rangeRule c).2 ++ o1, ctl)
 
 structure Result where
   out : List String
